@@ -11,12 +11,12 @@ namespace Sipsp
 theorem CtSafe.mono {b : Buf} {o o' : Nat} {c : PContacts} (h : CtSafe b o c) (h1 : o ≤ o') (h2 : o' ≤ b.size) :
     CtSafe b o' c := by
   obtain ⟨lo, a1, a2, a3⟩ := h.lo
-  exact ⟨h2, h.cur.mono h1 h2, h.clean, ⟨lo, a1, by omega, a3⟩, h.stored, h.lastF, h.firstF, h.pnc⟩
+  exact ⟨h2, h.cur.mono h1 h2, h.clean, ⟨lo, a1, by omega, a3⟩, h.stored, h.lastF, h.firstF, h.pnc, h.inn.mono h1 h2⟩
 
 theorem PaSafe.mono {b : Buf} {o o' : Nat} {c : PPAIs} (h : PaSafe b o c) (h1 : o ≤ o') (h2 : o' ≤ b.size) :
     PaSafe b o' c := by
   obtain ⟨lo, a1, a2, a3⟩ := h.lo
-  exact ⟨h2, h.cur.mono h1 h2, h.clean, ⟨lo, a1, by omega, a3⟩, h.stored, h.lastF, h.pnc⟩
+  exact ⟨h2, h.cur.mono h1 h2, h.clean, ⟨lo, a1, by omega, a3⟩, h.stored, h.lastF, h.pnc, h.inn.mono h1 h2⟩
 
 /-- legitimacy (for panic-freedom) of the header-values object at offset `o`, while the header being parsed is in
     state `st` -/
@@ -31,6 +31,8 @@ structure HvSafe (b : Buf) (o : Nat) (st : HState) (hv : PHdrVals) : Prop where
   ctI : st ≠ .hContact → CtIdle b hv.contacts
   paS : st = .hPAI → PaSafe b o hv.pais
   paI : st ≠ .hPAI → PaIdle b hv.pais
+  ctIn : CtIn b o hv.contacts
+  paIn : PaIn b o hv.pais
 
 /-- every field of the values object can be dereferenced, nothing panicked -/
 structure HvFine (b : Buf) (hv : PHdrVals) : Prop where
@@ -62,13 +64,13 @@ theorem HvSafe.fine {b : Buf} {o : Nat} {st : HState} {hv : PHdrVals} (h : HvSaf
 theorem HvSafe.mono {b : Buf} {o o' : Nat} {st : HState} {hv : PHdrVals} (h : HvSafe b o st hv) (h1 : o ≤ o')
     (h2 : o' ≤ b.size) : HvSafe b o' st hv :=
   ⟨h.from_.mono h1 h2, h.to.mono h1 h2, h.callid.mono h1 h2, h.cseq.mono h1 h2, h.clen.mono h1 h2, h.expires.mono h1 h2,
-   fun hs => (h.ctS hs).mono h1 h2, h.ctI, fun hs => (h.paS hs).mono h1 h2, h.paI⟩
+   fun hs => (h.ctS hs).mono h1 h2, h.ctI, fun hs => (h.paS hs).mono h1 h2, h.paI, h.ctIn.mono h1 h2, h.paIn.mono h1 h2⟩
 
 /-- the header state changes between states that are not "inside the Contact / PAI value list" -/
 theorem HvSafe.restate {b : Buf} {o : Nat} {st st' : HState} {hv : PHdrVals} (h : HvSafe b o st hv)
     (h1 : st ≠ .hContact) (h2 : st ≠ .hPAI) (h3 : st' ≠ .hContact) (h4 : st' ≠ .hPAI) : HvSafe b o st' hv :=
   ⟨h.from_, h.to, h.callid, h.cseq, h.clen, h.expires, fun hs => absurd hs h3, fun _ => h.ctI h1,
-   fun hs => absurd hs h4, fun _ => h.paI h2⟩
+   fun hs => absurd hs h4, fun _ => h.paI h2, h.ctIn, h.paIn⟩
 
 theorem NaEntry.naOK {b : Buf} {o : Nat} {pf : PFromBody} (h : NaEntry b o pf) : naOK b o pf := by
   rcases h with h | h
@@ -131,12 +133,12 @@ theorem parseBody_safe (b : Buf) (o : Nat) (h : Hdr) (hv : PHdrVals) (hst : h.st
       · intro he; subst he
         obtain ⟨r1, r2⟩ := hrange (Or.inl rfl)
         have Hm := H.mono r1 r2
-        exact ⟨Or.inl ⟨(naPVal_ok_range HdrFrom b o hv.from_ ho hq (Or.inl rfl)).1, hS.1⟩, Hm.to, Hm.callid, Hm.cseq, Hm.clen, Hm.expires, (fun hh => by cases hh), fun _ => Hm.ctI hn1, (fun hh => by cases hh), fun _ => Hm.paI hn2⟩
+        exact ⟨Or.inl ⟨(naPVal_ok_range HdrFrom b o hv.from_ ho hq (Or.inl rfl)).1, hS.1⟩, Hm.to, Hm.callid, Hm.cseq, Hm.clen, Hm.expires, (fun hh => by cases hh), fun _ => Hm.ctI hn1, (fun hh => by cases hh), fun _ => Hm.paI hn2, Hm.ctIn, Hm.paIn⟩
       · intro he; subst he
         obtain ⟨r1, r2⟩ := hrange (Or.inr rfl)
         have Hm := H.mono r1 r2
         show HvSafe b n1 HState.hFrom _
-        exact ⟨hS.2 rfl, Hm.to, Hm.callid, Hm.cseq, Hm.clen, Hm.expires, (fun hh => by cases hh), fun _ => Hm.ctI hn1, (fun hh => by cases hh), fun _ => Hm.paI hn2⟩
+        exact ⟨hS.2 rfl, Hm.to, Hm.callid, Hm.cseq, Hm.clen, Hm.expires, (fun hh => by cases hh), fun _ => Hm.ctI hn1, (fun hh => by cases hh), fun _ => Hm.paI hn2, Hm.ctIn, Hm.paIn⟩
     · simp only [hp, Bool.false_eq_true, ↓reduceIte] at hr
       exact hskip hr
   simp only [h_from_, Bool.false_eq_true, ↓reduceIte] at hr
@@ -156,12 +158,12 @@ theorem parseBody_safe (b : Buf) (o : Nat) (h : Hdr) (hv : PHdrVals) (hst : h.st
       · intro he; subst he
         obtain ⟨r1, r2⟩ := hrange (Or.inl rfl)
         have Hm := H.mono r1 r2
-        exact ⟨Hm.from_, Or.inl ⟨(naPVal_ok_range HdrTo b o hv.to ho hq (Or.inl rfl)).1, hS.1⟩, Hm.callid, Hm.cseq, Hm.clen, Hm.expires, (fun hh => by cases hh), fun _ => Hm.ctI hn1, (fun hh => by cases hh), fun _ => Hm.paI hn2⟩
+        exact ⟨Hm.from_, Or.inl ⟨(naPVal_ok_range HdrTo b o hv.to ho hq (Or.inl rfl)).1, hS.1⟩, Hm.callid, Hm.cseq, Hm.clen, Hm.expires, (fun hh => by cases hh), fun _ => Hm.ctI hn1, (fun hh => by cases hh), fun _ => Hm.paI hn2, Hm.ctIn, Hm.paIn⟩
       · intro he; subst he
         obtain ⟨r1, r2⟩ := hrange (Or.inr rfl)
         have Hm := H.mono r1 r2
         show HvSafe b n1 HState.hTo _
-        exact ⟨Hm.from_, hS.2 rfl, Hm.callid, Hm.cseq, Hm.clen, Hm.expires, (fun hh => by cases hh), fun _ => Hm.ctI hn1, (fun hh => by cases hh), fun _ => Hm.paI hn2⟩
+        exact ⟨Hm.from_, hS.2 rfl, Hm.callid, Hm.cseq, Hm.clen, Hm.expires, (fun hh => by cases hh), fun _ => Hm.ctI hn1, (fun hh => by cases hh), fun _ => Hm.paI hn2, Hm.ctIn, Hm.paIn⟩
     · simp only [hp, Bool.false_eq_true, ↓reduceIte] at hr
       exact hskip hr
   simp only [h_to, Bool.false_eq_true, ↓reduceIte] at hr
@@ -182,12 +184,12 @@ theorem parseBody_safe (b : Buf) (o : Nat) (h : Hdr) (hv : PHdrVals) (hst : h.st
       · intro he; subst he
         obtain ⟨r1, r2⟩ := hrange (Or.inl rfl)
         have Hm := H.mono r1 r2
-        exact ⟨Hm.from_, Hm.to, hS, Hm.cseq, Hm.clen, Hm.expires, (fun hh => by cases hh), fun _ => Hm.ctI hn1, (fun hh => by cases hh), fun _ => Hm.paI hn2⟩
+        exact ⟨Hm.from_, Hm.to, hS, Hm.cseq, Hm.clen, Hm.expires, (fun hh => by cases hh), fun _ => Hm.ctI hn1, (fun hh => by cases hh), fun _ => Hm.paI hn2, Hm.ctIn, Hm.paIn⟩
       · intro he; subst he
         obtain ⟨r1, r2⟩ := hrange (Or.inr rfl)
         have Hm := H.mono r1 r2
         show HvSafe b n1 HState.hCallID _
-        exact ⟨Hm.from_, Hm.to, hS, Hm.cseq, Hm.clen, Hm.expires, (fun hh => by cases hh), fun _ => Hm.ctI hn1, (fun hh => by cases hh), fun _ => Hm.paI hn2⟩
+        exact ⟨Hm.from_, Hm.to, hS, Hm.cseq, Hm.clen, Hm.expires, (fun hh => by cases hh), fun _ => Hm.ctI hn1, (fun hh => by cases hh), fun _ => Hm.paI hn2, Hm.ctIn, Hm.paIn⟩
     · simp only [hp, Bool.false_eq_true, ↓reduceIte] at hr
       exact hskip hr
   simp only [h_callid, Bool.false_eq_true, ↓reduceIte] at hr
@@ -208,12 +210,12 @@ theorem parseBody_safe (b : Buf) (o : Nat) (h : Hdr) (hv : PHdrVals) (hst : h.st
       · intro he; subst he
         obtain ⟨r1, r2⟩ := hrange (Or.inl rfl)
         have Hm := H.mono r1 r2
-        exact ⟨Hm.from_, Hm.to, Hm.callid, hS.2.2 (by intro hh; cases hh), Hm.clen, Hm.expires, (fun hh => by cases hh), fun _ => Hm.ctI hn1, (fun hh => by cases hh), fun _ => Hm.paI hn2⟩
+        exact ⟨Hm.from_, Hm.to, Hm.callid, hS.2.2 (by intro hh; cases hh), Hm.clen, Hm.expires, (fun hh => by cases hh), fun _ => Hm.ctI hn1, (fun hh => by cases hh), fun _ => Hm.paI hn2, Hm.ctIn, Hm.paIn⟩
       · intro he; subst he
         obtain ⟨r1, r2⟩ := hrange (Or.inr rfl)
         have Hm := H.mono r1 r2
         show HvSafe b n1 HState.hCSeq _
-        exact ⟨Hm.from_, Hm.to, Hm.callid, hS.2.2 (by intro hh; cases hh), Hm.clen, Hm.expires, (fun hh => by cases hh), fun _ => Hm.ctI hn1, (fun hh => by cases hh), fun _ => Hm.paI hn2⟩
+        exact ⟨Hm.from_, Hm.to, Hm.callid, hS.2.2 (by intro hh; cases hh), Hm.clen, Hm.expires, (fun hh => by cases hh), fun _ => Hm.ctI hn1, (fun hh => by cases hh), fun _ => Hm.paI hn2, Hm.ctIn, Hm.paIn⟩
     · simp only [hp, Bool.false_eq_true, ↓reduceIte] at hr
       exact hskip hr
   simp only [h_cseq, Bool.false_eq_true, ↓reduceIte] at hr
@@ -234,12 +236,12 @@ theorem parseBody_safe (b : Buf) (o : Nat) (h : Hdr) (hv : PHdrVals) (hst : h.st
       · intro he; subst he
         obtain ⟨r1, r2⟩ := hrange (Or.inl rfl)
         have Hm := H.mono r1 r2
-        exact ⟨Hm.from_, Hm.to, Hm.callid, Hm.cseq, hS.2.1 (by intro hh; cases hh), Hm.expires, (fun hh => by cases hh), fun _ => Hm.ctI hn1, (fun hh => by cases hh), fun _ => Hm.paI hn2⟩
+        exact ⟨Hm.from_, Hm.to, Hm.callid, Hm.cseq, hS.2.1 (by intro hh; cases hh), Hm.expires, (fun hh => by cases hh), fun _ => Hm.ctI hn1, (fun hh => by cases hh), fun _ => Hm.paI hn2, Hm.ctIn, Hm.paIn⟩
       · intro he; subst he
         obtain ⟨r1, r2⟩ := hrange (Or.inr rfl)
         have Hm := H.mono r1 r2
         show HvSafe b n1 HState.hCLen _
-        exact ⟨Hm.from_, Hm.to, Hm.callid, Hm.cseq, hS.2.1 (by intro hh; cases hh), Hm.expires, (fun hh => by cases hh), fun _ => Hm.ctI hn1, (fun hh => by cases hh), fun _ => Hm.paI hn2⟩
+        exact ⟨Hm.from_, Hm.to, Hm.callid, Hm.cseq, hS.2.1 (by intro hh; cases hh), Hm.expires, (fun hh => by cases hh), fun _ => Hm.ctI hn1, (fun hh => by cases hh), fun _ => Hm.paI hn2, Hm.ctIn, Hm.paIn⟩
     · simp only [hp, Bool.false_eq_true, ↓reduceIte] at hr
       exact hskip hr
   simp only [h_clen, Bool.false_eq_true, ↓reduceIte] at hr
@@ -248,7 +250,7 @@ theorem parseBody_safe (b : Buf) (o : Nat) (h : Hdr) (hv : PHdrVals) (hst : h.st
     have hc0 : (if h.state != .hContact then { hv.contacts with hNo := hv.contacts.hNo + 1, lastHVal := {} } else hv.contacts) =
         { hv.contacts with hNo := hv.contacts.hNo + 1, lastHVal := {} } := by rw [hst]; rfl
     rw [hc0] at hr
-    have hS := parseAllContactValues_safe_new b o hv.contacts (hv.contacts.hNo + 1) hfit ho (H.ctI hn1)
+    have hS := parseAllContactValues_safe_new b o hv.contacts (hv.contacts.hNo + 1) hfit ho (H.ctI hn1) H.ctIn
     rcases hq : parseAllContactValues b o { hv.contacts with hNo := hv.contacts.hNo + 1, lastHVal := {} } with ⟨n1, e1, f1⟩
     rw [hq] at hr hS; simp only [Prod.mk.injEq] at hr
     obtain ⟨rfl, rfl, rfl, rfl⟩ := hr
@@ -260,12 +262,12 @@ theorem parseBody_safe (b : Buf) (o : Nat) (h : Hdr) (hv : PHdrVals) (hst : h.st
     · intro he; subst he
       obtain ⟨r1, r2⟩ := hrange (Or.inl rfl)
       have Hm := H.mono r1 r2
-      exact ⟨Hm.from_, Hm.to, Hm.callid, Hm.cseq, Hm.clen, Hm.expires, (fun hh => by cases hh), fun _ => (hS.2.2.1 rfl).1, (fun hh => by cases hh), fun _ => Hm.paI hn2⟩
+      exact ⟨Hm.from_, Hm.to, Hm.callid, Hm.cseq, Hm.clen, Hm.expires, (fun hh => by cases hh), fun _ => (hS.2.2.1 rfl).1, (fun hh => by cases hh), fun _ => Hm.paI hn2, (hS.2.2.1 rfl).2.2, Hm.paIn⟩
     · intro he; subst he
       obtain ⟨r1, r2⟩ := hrange (Or.inr rfl)
       have Hm := H.mono r1 r2
       show HvSafe b n1 HState.hContact _
-      exact ⟨Hm.from_, Hm.to, Hm.callid, Hm.cseq, Hm.clen, Hm.expires, fun _ => hS.2.1 rfl, fun hh => absurd rfl hh, (fun hh => by cases hh), fun _ => Hm.paI hn2⟩
+      exact ⟨Hm.from_, Hm.to, Hm.callid, Hm.cseq, Hm.clen, Hm.expires, fun _ => hS.2.1 rfl, fun hh => absurd rfl hh, (fun hh => by cases hh), fun _ => Hm.paI hn2, (hS.2.1 rfl).inn, Hm.paIn⟩
   simp only [h_contacts, Bool.false_eq_true, ↓reduceIte] at hr
   by_cases h_expires : (h.type == HdrExpires) = true
   · simp only [h_expires, ↓reduceIte] at hr
@@ -284,12 +286,12 @@ theorem parseBody_safe (b : Buf) (o : Nat) (h : Hdr) (hv : PHdrVals) (hst : h.st
       · intro he; subst he
         obtain ⟨r1, r2⟩ := hrange (Or.inl rfl)
         have Hm := H.mono r1 r2
-        exact ⟨Hm.from_, Hm.to, Hm.callid, Hm.cseq, Hm.clen, hS, (fun hh => by cases hh), fun _ => Hm.ctI hn1, (fun hh => by cases hh), fun _ => Hm.paI hn2⟩
+        exact ⟨Hm.from_, Hm.to, Hm.callid, Hm.cseq, Hm.clen, hS, (fun hh => by cases hh), fun _ => Hm.ctI hn1, (fun hh => by cases hh), fun _ => Hm.paI hn2, Hm.ctIn, Hm.paIn⟩
       · intro he; subst he
         obtain ⟨r1, r2⟩ := hrange (Or.inr rfl)
         have Hm := H.mono r1 r2
         show HvSafe b n1 HState.hExpires _
-        exact ⟨Hm.from_, Hm.to, Hm.callid, Hm.cseq, Hm.clen, hS, (fun hh => by cases hh), fun _ => Hm.ctI hn1, (fun hh => by cases hh), fun _ => Hm.paI hn2⟩
+        exact ⟨Hm.from_, Hm.to, Hm.callid, Hm.cseq, Hm.clen, hS, (fun hh => by cases hh), fun _ => Hm.ctI hn1, (fun hh => by cases hh), fun _ => Hm.paI hn2, Hm.ctIn, Hm.paIn⟩
     · simp only [hp, Bool.false_eq_true, ↓reduceIte] at hr
       exact hskip hr
   simp only [h_expires, Bool.false_eq_true, ↓reduceIte] at hr
@@ -298,7 +300,7 @@ theorem parseBody_safe (b : Buf) (o : Nat) (h : Hdr) (hv : PHdrVals) (hst : h.st
     have hc0 : (if h.state != .hPAI then { hv.pais with hNo := hv.pais.hNo + 1, lastHVal := {} } else hv.pais) =
         { hv.pais with hNo := hv.pais.hNo + 1, lastHVal := {} } := by rw [hst]; rfl
     rw [hc0] at hr
-    have hS := parseAllPAIValues_safe_new b o hv.pais (hv.pais.hNo + 1) hfit ho (H.paI hn2)
+    have hS := parseAllPAIValues_safe_new b o hv.pais (hv.pais.hNo + 1) hfit ho (H.paI hn2) H.paIn
     rcases hq : parseAllPAIValues b o { hv.pais with hNo := hv.pais.hNo + 1, lastHVal := {} } with ⟨n1, e1, f1⟩
     rw [hq] at hr hS; simp only [Prod.mk.injEq] at hr
     obtain ⟨rfl, rfl, rfl, rfl⟩ := hr
@@ -310,12 +312,12 @@ theorem parseBody_safe (b : Buf) (o : Nat) (h : Hdr) (hv : PHdrVals) (hst : h.st
     · intro he; subst he
       obtain ⟨r1, r2⟩ := hrange (Or.inl rfl)
       have Hm := H.mono r1 r2
-      exact ⟨Hm.from_, Hm.to, Hm.callid, Hm.cseq, Hm.clen, Hm.expires, (fun hh => by cases hh), fun _ => Hm.ctI hn1, (fun hh => by cases hh), fun _ => (hS.2.2.1 rfl).1⟩
+      exact ⟨Hm.from_, Hm.to, Hm.callid, Hm.cseq, Hm.clen, Hm.expires, (fun hh => by cases hh), fun _ => Hm.ctI hn1, (fun hh => by cases hh), fun _ => (hS.2.2.1 rfl).1, Hm.ctIn, (hS.2.2.1 rfl).2.2⟩
     · intro he; subst he
       obtain ⟨r1, r2⟩ := hrange (Or.inr rfl)
       have Hm := H.mono r1 r2
       show HvSafe b n1 HState.hPAI _
-      exact ⟨Hm.from_, Hm.to, Hm.callid, Hm.cseq, Hm.clen, Hm.expires, (fun hh => by cases hh), fun _ => Hm.ctI hn1, fun _ => hS.2.1 rfl, fun hh => absurd rfl hh⟩
+      exact ⟨Hm.from_, Hm.to, Hm.callid, Hm.cseq, Hm.clen, Hm.expires, (fun hh => by cases hh), fun _ => Hm.ctI hn1, fun _ => hS.2.1 rfl, fun hh => absurd rfl hh, Hm.ctIn, (hS.2.1 rfl).inn⟩
   simp only [h_pais, Bool.false_eq_true, ↓reduceIte] at hr
   exact hskip hr
 
@@ -359,11 +361,11 @@ theorem hlCont_safe (b : Buf) (o : Nat) (h : Hdr) (hv : PHdrVals) (ho : o ≤ b.
     · intro he; subst he
       obtain ⟨r1, r2⟩ := hrange (Or.inl rfl)
       have Hm := H.mono r1 r2
-      exact ⟨rfl, ⟨Or.inl ⟨(naPVal_ok_range HdrFrom b o hv.from_ ho hq (Or.inl rfl)).1, hS.1⟩, Hm.to, Hm.callid, Hm.cseq, Hm.clen, Hm.expires, (fun hh => by cases hh), fun _ => Hm.ctI hn1, (fun hh => by cases hh), fun _ => Hm.paI hn2⟩⟩
+      exact ⟨rfl, ⟨Or.inl ⟨(naPVal_ok_range HdrFrom b o hv.from_ ho hq (Or.inl rfl)).1, hS.1⟩, Hm.to, Hm.callid, Hm.cseq, Hm.clen, Hm.expires, (fun hh => by cases hh), fun _ => Hm.ctI hn1, (fun hh => by cases hh), fun _ => Hm.paI hn2, Hm.ctIn, Hm.paIn⟩⟩
     · intro he; subst he
       obtain ⟨r1, r2⟩ := hrange (Or.inr rfl)
       have Hm := H.mono r1 r2
-      exact ⟨(by show h.state = _; exact hst), ⟨hS.2 rfl, Hm.to, Hm.callid, Hm.cseq, Hm.clen, Hm.expires, (fun hh => by cases hh), fun _ => Hm.ctI hn1, (fun hh => by cases hh), fun _ => Hm.paI hn2⟩⟩
+      exact ⟨(by show h.state = _; exact hst), ⟨hS.2 rfl, Hm.to, Hm.callid, Hm.cseq, Hm.clen, Hm.expires, (fun hh => by cases hh), fun _ => Hm.ctI hn1, (fun hh => by cases hh), fun _ => Hm.paI hn2, Hm.ctIn, Hm.paIn⟩⟩
   case hTo =>
     have hn1 : HState.hTo ≠ .hContact := by decide
     have hn2 : HState.hTo ≠ .hPAI := by decide
@@ -385,11 +387,11 @@ theorem hlCont_safe (b : Buf) (o : Nat) (h : Hdr) (hv : PHdrVals) (ho : o ≤ b.
     · intro he; subst he
       obtain ⟨r1, r2⟩ := hrange (Or.inl rfl)
       have Hm := H.mono r1 r2
-      exact ⟨rfl, ⟨Hm.from_, Or.inl ⟨(naPVal_ok_range HdrTo b o hv.to ho hq (Or.inl rfl)).1, hS.1⟩, Hm.callid, Hm.cseq, Hm.clen, Hm.expires, (fun hh => by cases hh), fun _ => Hm.ctI hn1, (fun hh => by cases hh), fun _ => Hm.paI hn2⟩⟩
+      exact ⟨rfl, ⟨Hm.from_, Or.inl ⟨(naPVal_ok_range HdrTo b o hv.to ho hq (Or.inl rfl)).1, hS.1⟩, Hm.callid, Hm.cseq, Hm.clen, Hm.expires, (fun hh => by cases hh), fun _ => Hm.ctI hn1, (fun hh => by cases hh), fun _ => Hm.paI hn2, Hm.ctIn, Hm.paIn⟩⟩
     · intro he; subst he
       obtain ⟨r1, r2⟩ := hrange (Or.inr rfl)
       have Hm := H.mono r1 r2
-      exact ⟨(by show h.state = _; exact hst), ⟨Hm.from_, hS.2 rfl, Hm.callid, Hm.cseq, Hm.clen, Hm.expires, (fun hh => by cases hh), fun _ => Hm.ctI hn1, (fun hh => by cases hh), fun _ => Hm.paI hn2⟩⟩
+      exact ⟨(by show h.state = _; exact hst), ⟨Hm.from_, hS.2 rfl, Hm.callid, Hm.cseq, Hm.clen, Hm.expires, (fun hh => by cases hh), fun _ => Hm.ctI hn1, (fun hh => by cases hh), fun _ => Hm.paI hn2, Hm.ctIn, Hm.paIn⟩⟩
   case hCallID =>
     have hn1 : HState.hCallID ≠ .hContact := by decide
     have hn2 : HState.hCallID ≠ .hPAI := by decide
@@ -412,11 +414,11 @@ theorem hlCont_safe (b : Buf) (o : Nat) (h : Hdr) (hv : PHdrVals) (ho : o ≤ b.
     · intro he; subst he
       obtain ⟨r1, r2⟩ := hrange (Or.inl rfl)
       have Hm := H.mono r1 r2
-      exact ⟨rfl, ⟨Hm.from_, Hm.to, hS, Hm.cseq, Hm.clen, Hm.expires, (fun hh => by cases hh), fun _ => Hm.ctI hn1, (fun hh => by cases hh), fun _ => Hm.paI hn2⟩⟩
+      exact ⟨rfl, ⟨Hm.from_, Hm.to, hS, Hm.cseq, Hm.clen, Hm.expires, (fun hh => by cases hh), fun _ => Hm.ctI hn1, (fun hh => by cases hh), fun _ => Hm.paI hn2, Hm.ctIn, Hm.paIn⟩⟩
     · intro he; subst he
       obtain ⟨r1, r2⟩ := hrange (Or.inr rfl)
       have Hm := H.mono r1 r2
-      exact ⟨(by show h.state = _; exact hst), ⟨Hm.from_, Hm.to, hS, Hm.cseq, Hm.clen, Hm.expires, (fun hh => by cases hh), fun _ => Hm.ctI hn1, (fun hh => by cases hh), fun _ => Hm.paI hn2⟩⟩
+      exact ⟨(by show h.state = _; exact hst), ⟨Hm.from_, Hm.to, hS, Hm.cseq, Hm.clen, Hm.expires, (fun hh => by cases hh), fun _ => Hm.ctI hn1, (fun hh => by cases hh), fun _ => Hm.paI hn2, Hm.ctIn, Hm.paIn⟩⟩
   case hCSeq =>
     have hn1 : HState.hCSeq ≠ .hContact := by decide
     have hn2 : HState.hCSeq ≠ .hPAI := by decide
@@ -439,11 +441,11 @@ theorem hlCont_safe (b : Buf) (o : Nat) (h : Hdr) (hv : PHdrVals) (ho : o ≤ b.
     · intro he; subst he
       obtain ⟨r1, r2⟩ := hrange (Or.inl rfl)
       have Hm := H.mono r1 r2
-      exact ⟨rfl, ⟨Hm.from_, Hm.to, Hm.callid, hS.2.2 (by intro hh; cases hh), Hm.clen, Hm.expires, (fun hh => by cases hh), fun _ => Hm.ctI hn1, (fun hh => by cases hh), fun _ => Hm.paI hn2⟩⟩
+      exact ⟨rfl, ⟨Hm.from_, Hm.to, Hm.callid, hS.2.2 (by intro hh; cases hh), Hm.clen, Hm.expires, (fun hh => by cases hh), fun _ => Hm.ctI hn1, (fun hh => by cases hh), fun _ => Hm.paI hn2, Hm.ctIn, Hm.paIn⟩⟩
     · intro he; subst he
       obtain ⟨r1, r2⟩ := hrange (Or.inr rfl)
       have Hm := H.mono r1 r2
-      exact ⟨(by show h.state = _; exact hst), ⟨Hm.from_, Hm.to, Hm.callid, hS.2.2 (by intro hh; cases hh), Hm.clen, Hm.expires, (fun hh => by cases hh), fun _ => Hm.ctI hn1, (fun hh => by cases hh), fun _ => Hm.paI hn2⟩⟩
+      exact ⟨(by show h.state = _; exact hst), ⟨Hm.from_, Hm.to, Hm.callid, hS.2.2 (by intro hh; cases hh), Hm.clen, Hm.expires, (fun hh => by cases hh), fun _ => Hm.ctI hn1, (fun hh => by cases hh), fun _ => Hm.paI hn2, Hm.ctIn, Hm.paIn⟩⟩
   case hCLen =>
     have hn1 : HState.hCLen ≠ .hContact := by decide
     have hn2 : HState.hCLen ≠ .hPAI := by decide
@@ -466,11 +468,11 @@ theorem hlCont_safe (b : Buf) (o : Nat) (h : Hdr) (hv : PHdrVals) (ho : o ≤ b.
     · intro he; subst he
       obtain ⟨r1, r2⟩ := hrange (Or.inl rfl)
       have Hm := H.mono r1 r2
-      exact ⟨rfl, ⟨Hm.from_, Hm.to, Hm.callid, Hm.cseq, hS.2.1 (by intro hh; cases hh), Hm.expires, (fun hh => by cases hh), fun _ => Hm.ctI hn1, (fun hh => by cases hh), fun _ => Hm.paI hn2⟩⟩
+      exact ⟨rfl, ⟨Hm.from_, Hm.to, Hm.callid, Hm.cseq, hS.2.1 (by intro hh; cases hh), Hm.expires, (fun hh => by cases hh), fun _ => Hm.ctI hn1, (fun hh => by cases hh), fun _ => Hm.paI hn2, Hm.ctIn, Hm.paIn⟩⟩
     · intro he; subst he
       obtain ⟨r1, r2⟩ := hrange (Or.inr rfl)
       have Hm := H.mono r1 r2
-      exact ⟨(by show h.state = _; exact hst), ⟨Hm.from_, Hm.to, Hm.callid, Hm.cseq, hS.2.1 (by intro hh; cases hh), Hm.expires, (fun hh => by cases hh), fun _ => Hm.ctI hn1, (fun hh => by cases hh), fun _ => Hm.paI hn2⟩⟩
+      exact ⟨(by show h.state = _; exact hst), ⟨Hm.from_, Hm.to, Hm.callid, Hm.cseq, hS.2.1 (by intro hh; cases hh), Hm.expires, (fun hh => by cases hh), fun _ => Hm.ctI hn1, (fun hh => by cases hh), fun _ => Hm.paI hn2, Hm.ctIn, Hm.paIn⟩⟩
   case hContact =>
     have hn2 : HState.hContact ≠ .hPAI := by decide
     have hS := parseAllContactValues_safe b o hv.contacts hfit (H.ctS rfl)
@@ -491,11 +493,11 @@ theorem hlCont_safe (b : Buf) (o : Nat) (h : Hdr) (hv : PHdrVals) (ho : o ≤ b.
     · intro he; subst he
       obtain ⟨r1, r2⟩ := hrange (Or.inl rfl)
       have Hm := H.mono r1 r2
-      exact ⟨rfl, ⟨Hm.from_, Hm.to, Hm.callid, Hm.cseq, Hm.clen, Hm.expires, (fun hh => by cases hh), fun _ => (hS.2.2.1 rfl).1, (fun hh => by cases hh), fun _ => Hm.paI hn2⟩⟩
+      exact ⟨rfl, ⟨Hm.from_, Hm.to, Hm.callid, Hm.cseq, Hm.clen, Hm.expires, (fun hh => by cases hh), fun _ => (hS.2.2.1 rfl).1, (fun hh => by cases hh), fun _ => Hm.paI hn2, (hS.2.2.1 rfl).2.2, Hm.paIn⟩⟩
     · intro he; subst he
       obtain ⟨r1, r2⟩ := hrange (Or.inr rfl)
       have Hm := H.mono r1 r2
-      exact ⟨(by show h.state = _; exact hst), ⟨Hm.from_, Hm.to, Hm.callid, Hm.cseq, Hm.clen, Hm.expires, fun _ => hS.2.1 rfl, fun hh => absurd rfl hh, (fun hh => by cases hh), fun _ => Hm.paI hn2⟩⟩
+      exact ⟨(by show h.state = _; exact hst), ⟨Hm.from_, Hm.to, Hm.callid, Hm.cseq, Hm.clen, Hm.expires, fun _ => hS.2.1 rfl, fun hh => absurd rfl hh, (fun hh => by cases hh), fun _ => Hm.paI hn2, (hS.2.1 rfl).inn, Hm.paIn⟩⟩
   case hExpires =>
     have hn1 : HState.hExpires ≠ .hContact := by decide
     have hn2 : HState.hExpires ≠ .hPAI := by decide
@@ -518,11 +520,11 @@ theorem hlCont_safe (b : Buf) (o : Nat) (h : Hdr) (hv : PHdrVals) (ho : o ≤ b.
     · intro he; subst he
       obtain ⟨r1, r2⟩ := hrange (Or.inl rfl)
       have Hm := H.mono r1 r2
-      exact ⟨rfl, ⟨Hm.from_, Hm.to, Hm.callid, Hm.cseq, Hm.clen, hS, (fun hh => by cases hh), fun _ => Hm.ctI hn1, (fun hh => by cases hh), fun _ => Hm.paI hn2⟩⟩
+      exact ⟨rfl, ⟨Hm.from_, Hm.to, Hm.callid, Hm.cseq, Hm.clen, hS, (fun hh => by cases hh), fun _ => Hm.ctI hn1, (fun hh => by cases hh), fun _ => Hm.paI hn2, Hm.ctIn, Hm.paIn⟩⟩
     · intro he; subst he
       obtain ⟨r1, r2⟩ := hrange (Or.inr rfl)
       have Hm := H.mono r1 r2
-      exact ⟨(by show h.state = _; exact hst), ⟨Hm.from_, Hm.to, Hm.callid, Hm.cseq, Hm.clen, hS, (fun hh => by cases hh), fun _ => Hm.ctI hn1, (fun hh => by cases hh), fun _ => Hm.paI hn2⟩⟩
+      exact ⟨(by show h.state = _; exact hst), ⟨Hm.from_, Hm.to, Hm.callid, Hm.cseq, Hm.clen, hS, (fun hh => by cases hh), fun _ => Hm.ctI hn1, (fun hh => by cases hh), fun _ => Hm.paI hn2, Hm.ctIn, Hm.paIn⟩⟩
   case hPAI =>
     have hn1 : HState.hPAI ≠ .hContact := by decide
     have hS := parseAllPAIValues_safe b o hv.pais hfit (H.paS rfl)
@@ -543,11 +545,11 @@ theorem hlCont_safe (b : Buf) (o : Nat) (h : Hdr) (hv : PHdrVals) (ho : o ≤ b.
     · intro he; subst he
       obtain ⟨r1, r2⟩ := hrange (Or.inl rfl)
       have Hm := H.mono r1 r2
-      exact ⟨rfl, ⟨Hm.from_, Hm.to, Hm.callid, Hm.cseq, Hm.clen, Hm.expires, (fun hh => by cases hh), fun _ => Hm.ctI hn1, (fun hh => by cases hh), fun _ => (hS.2.2.1 rfl).1⟩⟩
+      exact ⟨rfl, ⟨Hm.from_, Hm.to, Hm.callid, Hm.cseq, Hm.clen, Hm.expires, (fun hh => by cases hh), fun _ => Hm.ctI hn1, (fun hh => by cases hh), fun _ => (hS.2.2.1 rfl).1, Hm.ctIn, (hS.2.2.1 rfl).2.2⟩⟩
     · intro he; subst he
       obtain ⟨r1, r2⟩ := hrange (Or.inr rfl)
       have Hm := H.mono r1 r2
-      exact ⟨(by show h.state = _; exact hst), ⟨Hm.from_, Hm.to, Hm.callid, Hm.cseq, Hm.clen, Hm.expires, (fun hh => by cases hh), fun _ => Hm.ctI hn1, fun _ => hS.2.1 rfl, fun hh => absurd rfl hh⟩⟩
+      exact ⟨(by show h.state = _; exact hst), ⟨Hm.from_, Hm.to, Hm.callid, Hm.cseq, Hm.clen, Hm.expires, (fun hh => by cases hh), fun _ => Hm.ctI hn1, fun _ => hS.2.1 rfl, fun hh => absurd rfl hh, Hm.ctIn, (hS.2.1 rfl).inn⟩⟩
 
 
 /-! ### the header-line loop -/
@@ -857,6 +859,6 @@ theorem HvSafe_new (b : Buf) (o : Nat) (ho : o ≤ b.size) (k : Nat) :
   ⟨NaEntry_new b o ho, NaEntry_new b o ho, ⟨ho, Nat.zero_le _, PField.inside_zero _, rfl⟩,
    ⟨ho, Nat.zero_le _, PField.inside_zero _, PField.inside_zero _, PField.inside_zero _, rfl⟩,
    ⟨ho, Nat.zero_le _, PField.inside_zero _, rfl⟩, ⟨ho, Nat.zero_le _, PField.inside_zero _, rfl⟩,
-   (fun hh => by cases hh), fun _ => CtIdle_new b k, (fun hh => by cases hh), fun _ => PaIdle_new b⟩
+   (fun hh => by cases hh), (fun _ => CtIdle_new b k), (fun hh => by cases hh), (fun _ => PaIdle_new b), CtIn_new b o ho k, PaIn_new b o ho⟩
 
 end Sipsp
